@@ -270,6 +270,23 @@ def replay_array(model, dtype="f8", intparams=False):
         ps = [float(round(x)) for x in ps]
     if not (pb > 50 and 15 <= ps[0] < ps[1] <= 2.5 * pb):
         return False, {"what": "model point outside the property's quantifier on the real code", "inputs": m, "pb": pb}
+    if dtype == "f8":
+        # an element exactly at the bubble point (bit for bit, as a caller gets it from pressure_bubblepoint_Standing):
+        # the solver's value for it cannot be hit in doubles, so the real p_b is put in its place
+        for trial in ([0.5 * pb, pb], [pb, min(1.5 * pb, 2.4 * pb)]):
+            arr = np.array(trial)
+            with np.errstate(all="ignore"):
+                rs = np.asarray(oil.solution_gor_Standing(T_, arr, api, gg, rsi), float)
+                bo = np.asarray(oil.b_o_Standing(T_, arr, api, gg, rsi), float)
+            bad = []
+            for j, p in enumerate(trial):
+                rs_s, bo_s = float(oil.solution_gor_Standing(T_, float(p), api, gg, rsi)), float(oil.b_o_Standing(T_, float(p), api, gg, rsi))
+                if not (np.isfinite(rs[j]) and abs(rs[j] - rs_s) <= 1e-9 * abs(rs_s)):
+                    bad.append(f"R_s array element at p={p!r} is {rs[j]!r}, scalar call gives {rs_s!r}")
+                if not (np.isfinite(bo[j]) and abs(bo[j] - bo_s) <= 1e-9 * abs(bo_s)):
+                    bad.append(f"B_o array element at p={p!r} is {bo[j]!r}, scalar call gives {bo_s!r}")
+            if bad:
+                return True, {"what": f"array entry points with an element exactly at the bubble point p_b={pb!r}: " + "; ".join(bad[:2]), "inputs": m, "pressures": trial}
     arr = np.array(ps, dtype={"f8": "float64", "i8": "int64", "i4": "int32"}[dtype])
     with np.errstate(all="ignore"):
         rs = np.asarray(oil.solution_gor_Standing(T_, arr, api, gg, rsi), float)
